@@ -69,6 +69,7 @@ pub fn timing_of(t: u64) -> Timing {
     match t {
         1 => Timing { refresh: 11, retry: 12, expire: 13 },
         2 => Timing { refresh: 0x0102_0304, retry: 600, expire: u32::MAX },
+        3 => Timing { refresh: 20, retry: 600, expire: 7200 },          // (RtrPacing: four ticks of five seconds)
         _ => Timing::default(),
     }
 }
